@@ -321,7 +321,7 @@ Record gout := mkGO {
 (** the symbols of the standard library that stdlib/restricted.go replaces on purpose (C13) *)
 Definition g_sandboxed (ipath name : str) : bool :=
   (str_eqb ipath (s "os") && mem name [s "Exit"; s "FindProcess"])
-  || (str_eqb ipath (s "log") && mem name [s "Fatal"; s "Fatalf"; s "Fatalln"; s "Logger"; s "New"]).
+  || (str_eqb ipath (s "log") && mem name [s "Default"; s "Fatal"; s "Fatalf"; s "Fatalln"; s "Logger"; s "New"]).
 
 Inductive gcontrib := GNo | GVal (b : gbind) | GTyp (b : gbind) (w : option (list gmeth)).
 
